@@ -117,6 +117,20 @@ PROPS = {
         "assumptions": ["argument values do not contain a complete well-formed frame (runs where random damage fabricates one are skipped: probe fabricated_frame_by_chance)",
                         "process address space limited to 6 GB by the driver (RLIMIT_AS); per-process timeout"],
     },
+    "C14": {
+        "level": "exploration", "quick": 400, "thorough": 30000, "batch": 1, "single_timeout": 120,
+        "rule": ("2-3 writer tasks (each the only writer of its KV keys, vectors and metadata versions; every value carries a monotone version), "
+                 "1-2 admin tasks issuing SaveSnapshot / RewriteAOF (overlapping when two admins) / Flush / Sync / forced vacuum, an optional task that "
+                 "calls Close at a random point, optional tiny auto-save policy, all run by the cooperative scheduler: every lock operation and every "
+                 "file-system call of the instrumented engine is a decision point, one goroutine runs at a time, choice by random priorities + PCT change "
+                 "points (depth 1-4) + random yields (p in {0,.005,.02,.1,.3}), clock advanced by the scheduler (p in {0,.02,.1}). When Flush / Sync / "
+                 "SaveSnapshot / RewriteAOF return nil a crash image is taken. Oracle: after Close+Open, and after recovering every image, each item's "
+                 "version >= the highest version acknowledged before the covering call was invoked and <= the highest issued; no stall (40 simulated "
+                 "seconds without an enabled task). Non-trivial: >=3 acknowledged writes and >10 scheduling grants; distinct = task programs + hash of "
+                 "the grant sequence."),
+        "real_vs_stub": REAL + "; scheduling of every goroutine that reaches a lock or file call is decided by the simulator (Go select arbitration and map order are observed, not controlled)",
+        "assumptions": ["decision points exist only at (rewritten) lock operations and file-system calls; code between two such points is atomic to the scheduler"],
+    },
 }
 
 
@@ -126,6 +140,12 @@ NOT_APPLICABLE["C20"] = ("pure functions of their input (text analysis, chunking
                          "no schedule, fault or interleaving for a simulator to decide; property-based testing territory, see DESIGN.md section 7")
 
 MANIFEST_TEXT = {
+    "C14": {
+        "text": "Seeded search over schedules: writers, snapshot/compaction/flush requests, the log writer goroutine, background housekeeping and Close are interleaved by a cooperative scheduler that owns every lock and file-system decision point; acknowledged versions are compared with what survives Close+Open and with crash images taken at the moment Flush/Sync/SaveSnapshot/RewriteAOF return.",
+        "design_ref": "DESIGN.md section 6 C14, section 2.3",
+        "note": "Schedules are sampled (PCT + random yields), not enumerated. Interleavings inside lock-free code and Go select arbitration are outside the scheduler's control.",
+        "technique": "deterministic simulation: cooperative lock/IO scheduler (PCT) + synctest clock + crash images at acknowledgement points, durability oracle over recorded acknowledgements",
+    },
     "C03": {
         "text": "Stored-byte faults are injected into logs written by the real engine at positions enumerated over the frame structure; recovery by the real engine is compared with the in-order application of the frames an independent scanner finds intact. The codec round-trip half is plain input generation and is reported as such.",
         "design_ref": "DESIGN.md section 6 C03",
